@@ -304,6 +304,7 @@ func raceC19(out *bufio.Writer, st *Stats, r *Rng, tier string) {
 	}
 	kinds := []Kind{I16, F64, U8, F32, I64, U32}
 	w := NewWorld(out, st)
+	coldStartC19(w, st)
 	for ci, c := range cfgs {
 		k := kinds[ci%len(kinds)]
 		dk := kinds[(ci+1)%len(kinds)]
@@ -312,6 +313,67 @@ func raceC19(out *bufio.Writer, st *Stats, r *Rng, tier string) {
 	}
 	runtime.GOMAXPROCS(runtime.NumCPU())
 }
+
+// coldStartC19: the FIRST use of every instantiation of the conversions and readers happens from several
+// goroutines at once on one shared source (state that is built lazily on first use - lookup tables,
+// caches - would be written concurrently). Results must agree between the goroutines.
+func coldStartC19(w *World, st *Stats) {
+	const G = 4
+	runtime.GOMAXPROCS(runtime.NumCPU())
+	for sk := Kind(0); sk < NKinds; sk++ {
+		for dk := Kind(0); dk < NKinds; dk++ {
+			n := 300
+			src := Alloc(sk, false, signal.Allocator{Channels: 2, Length: n, Capacity: n})
+			for i := 0; i < src.Len(); i++ {
+				if sk.IsFloat() {
+					src.SetSample(i, floatCell(float64(i%200-100)/100, sk))
+				} else {
+					src.SetSample(i, small(sk, i%200-100))
+				}
+			}
+			cv, rd, rs := convCall(sk, dk), readCall(sk, dk), readStripedCall(sk, dk)
+			res := make([][]uint64, G)
+			var wg sync.WaitGroup
+			start := make(chan struct{})
+			for g := 0; g < G; g++ {
+				wg.Add(1)
+				go func(g int) {
+					defer wg.Done()
+					dst := Alloc(dk, false, signal.Allocator{Channels: 2, Length: n, Capacity: n})
+					sl := NewSlice(dk, make([]uint64, 2*n), false)
+					cols := []DynSlice{NewSlice(dk, make([]uint64, n), false), NewSlice(dk, make([]uint64, n), false)}
+					<-start
+					cv(src, dst)
+					rd(src, sl)
+					rs(src, cols)
+					out := make([]uint64, 0, 4*n)
+					for i := 0; i < dst.Len(); i++ {
+						out = append(out, dst.Sample(i))
+					}
+					for i := 0; i < sl.Len(); i++ {
+						out = append(out, sl.Get(i))
+					}
+					res[g] = out
+				}(g)
+			}
+			close(start)
+			wg.Wait()
+			for g := 1; g < G; g++ {
+				if !eqU(res[0], res[g]) {
+					st.branch("cold-start-mismatch")
+					coldMismatch++
+				}
+			}
+			st.cases++
+		}
+	}
+	st.Branches["cold-start-pairs"] = int(NKinds) * int(NKinds)
+	w.Case("C19 cold start: first use of every conversion / reader instantiation from 4 goroutines at once")
+	fmt.Fprintf(w.out, "r19 readers=%d writers=0 iters=1 procs=%d mismatches=%d\n", G, runtime.NumCPU(), coldMismatch)
+	w.st.lines++
+}
+
+var coldMismatch int
 
 // carve: the shared buffer's length covers only the read-only frames and every writer slices its own
 // window out of the spare capacity inside its goroutine (slicing is one of the concurrent read-only uses)
